@@ -118,9 +118,10 @@ def plans(tier, seed):
         v = [(s, c) for s in ("SX", "MX") for c in (0, 1, 2)]
         a = [(lab, s) for _, lab, s in all_specs(3, 4, 1, pal)]
         b = [(lab, s) for _, lab, s in all_specs(4, 4, 0, pal) if s.n == 4]
-        jobs = [({"pset": 0, "d": 1, "variants": v}, a), ({"pset": 2, "d": 1, "variants": v[:3]}, b),
+        jobs = [({"pset": 0, "d": 1, "variants": v[:3]}, a), ({"pset": 2, "d": 1, "variants": [("MX", 1)]}, b),
                 ({"pset": 1, "d": 0, "variants": v}, a)]
-        bounds = {"shapes": "(3,4) c<=1, 4-node shapes (4,4)", "value_deviation": 1, "palette": pal}
+        bounds = {"shapes": "(3,4) c<=1 (SX at 3 levels with single excursions; SX+MX at 3 levels on base vectors), 4-node shapes "
+                            "(4,4) base+uniform", "value_deviation": 1, "palette": pal}
     return jobs, bounds
 
 
